@@ -396,6 +396,11 @@ FromDeep(d, st) ==
 Alloc(st, obj) == [st |-> [st EXCEPT !.heap = Append(@, obj)], l |-> Len(st.heap) + 1]
 
 \* a value used as an operand / element / condition: in v2 "no value" and multi-values are errors
+\* use("name") is specified as a statement of its own (the machine then runs the callee as a task).  A use call anywhere else
+\* - inside a condition, a loop clause, an operand, an element, an argument - is left unspecified: the result is the class
+\* "unspec-use-position" (only "no crash" is demanded of the implementation there).
+NoPend(r) == IF r.st.pend # "" THEN E([r.st EXCEPT !.pend = ""], "unspec-use-position") ELSE r
+DirectUse(s) == s.k = "call" /\ s.f = "use"
 Use1(st, r) == IF ~r.ok THEN r
                ELSE IF st.v2 /\ r.v.t = "void" THEN E(r.st, "no-value")
                ELSE IF r.v.t = "multi" THEN E(r.st, "multi-value")
